@@ -51,7 +51,9 @@ def gen(seed: int, tier: str) -> dict[str, Any]:
                        else rng.randint(1, 254),
                        "user_id": rng.randint(1, 127), "user_pw": "pw%d" % rng.randrange(10 ** 6),
                        "dev_pw": "dev%d" % rng.randrange(10 ** 6), "n_sends": rng.randint(1, 4),
-                       "hs_flips": sorted(rng.sample(range(50 * 8), 24)), "batch": 1},
+                       "hs_flips": sorted(rng.sample(range(50 * 8), 24)), "batch": 1,
+                       # several handshakes on one SecureTunnel / SecureSession object (what a reconnect does)
+                       "reuse": rng.random() < 0.5, "reconnects": rng.choice([0, 1, 2, 3])},
             "ops": []}
 
 
@@ -103,8 +105,9 @@ def run_session(plan):
         if cfg["mode"] == "handshake":
             # every sampled single-bit flip of the SessionResponse must abort the handshake
             base_accept = gw.on_accept
+            shared = mk() if cfg.get("reuse") else None
             for bit in cfg["hs_flips"]:
-                t = mk()
+                t = shared or mk()
                 orig = gw._secure_rx
 
                 def rx(conn, fr, bit=bit, orig=orig):
@@ -133,14 +136,18 @@ def run_session(plan):
                     R.probes["tampered_session_response_rejected"] += 1
                 gw._secure_rx = orig
                 R.extra_faults["session_response_bit_flip"] += 1
-            # and the untouched handshake works
-            t = mk()
-            try:
-                await t.connect()
-                info["orig_ok"] = True
-                await t.disconnect()
-            except CommunicationError:
-                R.violate("C28.round-trip", "genuine-handshake-failed", "untampered handshake did not complete")
+            # and the untouched handshake works (on a fresh object, or on the one that saw all the rejected ones), repeatedly
+            t = shared or mk()
+            for k in range(1 + cfg.get("reconnects", 0)):
+                try:
+                    await t.connect()
+                    info["orig_ok"] = True
+                    await t.disconnect()
+                except CommunicationError:
+                    R.violate("C28.round-trip", "genuine-handshake-failed" if k == 0 and shared is None else
+                              "genuine-handshake-failed-on-a-used-session-object",
+                              f"untampered handshake #{k + 1} did not complete (shared object: {shared is not None})")
+                    break
             return
 
         tunnel = mk()
@@ -182,6 +189,19 @@ def run_session(plan):
         info["after_original"] = list(delivered)
         await tunnel.disconnect()
         await asyncio.sleep(0.1)
+        # reconnects of the same object: every handshake has fresh keys and must verify on both sides, every session wraps
+        for k in range(cfg.get("reconnects", 0)):
+            try:
+                await tunnel.connect()
+                raw = W.cemi_ldata(W.L_DATA_REQ, 0, W.ga(1, 1, 1), tpci_apci=W.gv_write(bytes((0x70 + k,)) * 3))
+                await tunnel.send_cemi(CEMIFrame.from_knx(raw))
+                await tunnel.disconnect()
+                R.probes["handshakes_on_a_used_session_object"] += 1
+            except CommunicationError as exc:
+                R.violate("C28.round-trip", "genuine-handshake-failed-on-a-used-session-object",
+                          f"reconnect #{k + 1} of the same SecureTunnel: {exc!r}")
+                break
+            await asyncio.sleep(0.1)
 
     R.execute(main())
     if cfg["mode"] == "session" and "before_original" in info:
